@@ -248,8 +248,25 @@ impl<'a> Gen<'a> {
             1 => "ok:No/Such_Zone".to_string(),
             2 => format!("ok:{}", self.rng.pick(&self.named).to_lowercase()),
             // unusual answers of the host lookup (all "unknown name" faults)
-            3 => match self.rng.below(6) {
+            3 => match self.rng.below(7) {
                 0 => "ok:".to_string(),
+                // not ASCII (a byte offset inside such a name need not be a
+                // character boundary)
+                6 => {
+                    if self.rng.chance(1, 2) {
+                        format!("ok:{}", *self.rng.pick(&["Europe/Z\u{fc}rich", "\u{30a2}\u{30b8}\u{30a2}/\u{6771}\u{4eac}", "\u{11e}", "America/S\u{e3}o_Paulo", "UTC\u{2212}03"]))
+                    } else {
+                        // 1..80 characters of mixed encoded width: whatever
+                        // byte offset a consumer cuts at, some answer has a
+                        // character straddling it
+                        let n = 1 + self.rng.below(80) as usize;
+                        let mut name = String::new();
+                        for _ in 0..n {
+                            name.push(*self.rng.pick(&['x', '/', '_', '\u{e9}', '\u{65e5}', '\u{1f30d}']));
+                        }
+                        format!("ok:{name}")
+                    }
+                }
                 1 => "ok:Etc/Unknown".to_string(),
                 2 => format!("ok:{}", "Very/".repeat(60)),
                 3 => "ok:../../etc/passwd".to_string(),
